@@ -861,6 +861,44 @@ def undeclared_and_moved_family(ctx, n):
                 ctx.violation('view-vs-rules', {'text': text, 'cls': None, 'family': 'redeclared'}, '@namespace rules %r, mapping %r' % (rules_, view_), KNOWN_PRED)
         except Exception as e:  # noqa
             ctx.violation('negation-raises', {'text': text, 'cls': None}, '%s: %s' % (type(e).__name__, e), KNOWN_PRED)
+    # prefixes are names as written (letter case matters); the first namespace of a sheet lands before every body rule
+    for text, want in (('@namespace SVG "A"; @namespace svg "B"; SVG|circle, svg|rect, [SVG|href], SVG|*{l:0}', [('A', 'circle'), ('B', 'rect'), ('A', 'href'), ('A', '*')]),
+                       ('@namespace Math "M"; Math|mi:not(Math|mo){l:0}', [('M', 'mi'), ('M', 'mo')])):
+        impl.reset()
+        ctx.case(('prefix-case', text))
+        try:
+            sheet = cssutils.parseString(text)
+            got = [(v[0], v[1]) for sel in all_pairs_deep(sheet) for _, *v in [tuple(sel_item) for sel_item in sel]]
+        except Exception as e:  # noqa
+            ctx.violation('negation-raises', {'text': text, 'cls': None}, '%s: %s' % (type(e).__name__, e), KNOWN_PRED)
+            continue
+        if got != want:
+            ctx.violation('detached-resolution', {'text': text, 'cls': None, 'family': 'prefix-case'}, 'selectors hold %r, expected %r' % (got, want), KNOWN_PRED)
+    for first in ('@font-face{font-family:x}', '@page{margin:0}', '@media tv{b{l:0}}', '/*c*/', '@x y;', 'b{l:0}', '@variables{v:1}', '@import "i.css";'):
+        for how in ('mapping', 'add-text', 'add-rule'):
+            impl.reset()
+            text = first + ' a{l:0}'
+            case = {'text': text, 'how': how, 'cls': None, 'family': 'first-namespace'}
+            ctx.case(('first-namespace', first, how))
+            try:
+                sheet = cssutils.parseString(text)
+                if how == 'mapping':
+                    sheet.namespaces['p'] = 'u'
+                elif how == 'add-text':
+                    sheet.add('@namespace p "u";')
+                else:
+                    sheet.add(cssutils.css.CSSNamespaceRule(namespaceURI='u', prefix='p'))
+                sheet.add('p|z{t:0}')
+                again = cssutils.parseString(sheet.cssText)
+                a = (dict(sheet.namespaces.items()), all_pairs_deep(sheet))
+                b = (dict(again.namespaces.items()), all_pairs_deep(again))
+            except xml.dom.DOMException:
+                continue
+            except Exception as e:  # noqa
+                ctx.violation('negation-raises', case, '%s: %s' % (type(e).__name__, e), KNOWN_PRED)
+                continue
+            if a != b:
+                ctx.violation('reparse-pairs', case, 'sheet has %r; its text %r reads back as %r' % (a, sheet.cssText.decode()[:200], b), KNOWN_PRED)
     SHAPES = ['x|a.c', 'p|ok, x|a.c', 'b > x|a', 'b[x|att]', 'b:not(x|a)', 'b:not([x|a])', 'x|a', '.c x|*', 'x|a, k2', '*|y x|z#i']
     for _ in range(n):
         impl.reset()
